@@ -264,7 +264,7 @@ def _operandT():
     return _tokT('formulas.tokens.operand:Operand', expr=StrT())
 
 
-def _set_expr_contract(name, n):
+def _set_expr_contract(name, n, prop='C01', out=None, prefix=''):
     params = dict(self=_tokT('formulas.tokens.operator:OperatorToken', name=ConstT(name)), a=_operandT())
     if n == 2:
         params['b'] = _operandT()
@@ -277,8 +277,8 @@ def _set_expr_contract(name, n):
         self.set_expr(a, b)
         return self.attr['expr']
     fn = lemma2 if n == 2 else lemma1
-    c = Contract(lambda: fn, params, 'C01', name='Operator.set_expr[%s]' % {' ': 'space'}.get(name, name), use=[], frame=('self',))
-    CONTRACTS.append(c)
+    c = Contract(lambda: fn, params, prop, name=prefix + 'Operator.set_expr[%s]' % {' ': 'space'}.get(name, name), use=[], frame=('self',))
+    (CONTRACTS if out is None else out).append(c)
     if n == 2:
         @c.ensures('binary-node-renders-as-parenthesised-infix', 'P')
         def _(self, a, b, result):
@@ -310,7 +310,7 @@ for _nm_ in ('u-', 'u+', '%'):
     _set_expr_contract(_nm_, 1)
 
 
-def _fn_set_expr_contract(n):
+def _fn_set_expr_contract(n, prop='C01', out=None, prefix=''):
     params = dict(self=_tokT('formulas.tokens.function:Function', name=StrT()))
     names = ['a', 'b', 'c'][:n]
     for k in names:
@@ -332,8 +332,8 @@ def _fn_set_expr_contract(n):
         self.set_expr(a, b, c)
         return self.attr['expr']
     fn = [l0, l1, l2, l3][n]
-    c = Contract(lambda: fn, params, 'C01', name='Function.set_expr[%d arguments]' % n, use=[], frame=('self',))
-    CONTRACTS.append(c)
+    c = Contract(lambda: fn, params, prop, name=prefix + 'Function.set_expr[%d arguments]' % n, use=[], frame=('self',))
+    (CONTRACTS if out is None else out).append(c)
     if n == 0:
         @c.ensures('call-renders-as-NAME-and-arguments-joined-by-comma-blank', 'P')
         def _(self, result):
